@@ -47,3 +47,24 @@ Proof.
   - repeat constructor; simpl; intuition discriminate.
 Qed.
 Print Assumptions closed_example.
+
+(* AT DOCUMENT LEVEL (plain triples maps): the generation rules give, for the concatenation of two documents, exactly the union of
+   what they give for each -- a triples map means the same whatever stands around it -- and so does the engine, end to end
+   (through the end-to-end theorem of C01): every pair of documents, every table, both output formats *)
+From Morph Require Import Model.Mapping Model.Spec Model.Fragment Proofs.TermP Proofs.RowSpecP Proofs.DocEngineP Proofs.DocUnionP.
+Theorem plain_document_means_the_union_of_its_parts : forall scfg fe tables d1 d2,
+  forallb plain_tm d1 = true -> forallb plain_tm d2 = true ->
+  forall x, In x (spec_lines scfg fe (d1 ++ d2) tables) <-> In x (spec_lines scfg fe d1 tables) \/ In x (spec_lines scfg fe d2 tables).
+Proof. exact plain_document_is_union_of_parts. Qed.
+Print Assumptions plain_document_means_the_union_of_its_parts.
+Theorem engine_on_a_plain_document_is_the_union_over_its_parts : forall cfg fe scfg raw d1 d2 r1 r2 r12 l1 l2 l12,
+  cfg_agree cfg scfg -> c_nquads cfg = s_nquads scfg -> s_na scfg = c_na cfg ->
+  forallb plain_tm d1 = true -> forallb plain_tm d2 = true ->
+  normalise d1 = Ok r1 -> normalise d2 = Ok r2 -> normalise (d1 ++ d2) = Ok r12 ->
+  (forall rl, In rl r1 -> simple_rule rl) -> (forall rl, In rl r2 -> simple_rule rl) -> (forall rl, In rl r12 -> simple_rule rl) ->
+  (forall rules rl rw n, In rules [r1; r2; r12] -> In rl rules -> In rw (raw (r_src rl)) -> In n (rule_names rl) -> assoc n rw <> None) ->
+  materialize_rules cfg fe r1 (delivered cfg raw) = Ok l1 -> materialize_rules cfg fe r2 (delivered cfg raw) = Ok l2 ->
+  materialize_rules cfg fe r12 (delivered cfg raw) = Ok l12 ->
+  forall x, In x l12 <-> In x l1 \/ In x l2.
+Proof. exact engine_plain_document_is_union_of_parts. Qed.
+Print Assumptions engine_on_a_plain_document_is_the_union_over_its_parts.
